@@ -732,7 +732,11 @@ pub fn c09(tier: &str) -> i32 {
             }
         }
         if let (Some((_, d)), Some((_, Ok((_, act))))) = (&first, all.first()) {
-            if *act > 2 {
+            // "different seeds give different runs" is only demanded of runs with enough random
+            // decisions behind them: at least 10 orders/trades beyond the harness's own resting quotes
+            // (a one-step run of a momentum agent flips a handful of coins: two seeds may well agree)
+            let own = if p.multi { 4 } else { 2 };
+            if *act >= own + 10 {
                 nontrivial.insert(*d);
                 *digests_by_cfg.entry((p.comp, p.multi, p.steps, p.tick, p.step_size)).or_default().entry(*d).or_insert(0) += 1;
             }
@@ -755,7 +759,7 @@ pub fn c09(tier: &str) -> i32 {
     }
     out.set("evaluations", json!(evaluations));
     out.set("distinct_nontrivial", json!(nontrivial.len()));
-    out.set("rule", json!("grid = 7 agent compositions (derive macros, incl. a nested set) x {Env, MarketEnv<2>} x seeds x step counts x tick {1,2,5} x step size {100, 10^6}; each point is run by: library runner twice in-process, 3 child processes (progress bar off/on/off), hand-written loop around a recording Xoroshiro128**, and a play-back generator fed the recorded words; all digests (orders, trades, level-2 history, per-step volumes, clock) must agree. A point is non-trivial if it produced more than the 2 seed orders; distinct = distinct digests."));
+    out.set("rule", json!("grid = 7 agent compositions (derive macros, incl. a nested set) x {Env, MarketEnv<2>} x seeds x step counts x tick {1,2,5} x step size {100, 10^6}; each point is run by: library runner twice in-process, 3 child processes (progress bar off/on/off), hand-written loop around a recording Xoroshiro128**, and a play-back generator fed the recorded words; all digests (orders, trades, level-2 history, per-step volumes, clock) must agree. A point is non-trivial if it produced at least 10 orders/trades beyond the harness's own resting quotes (only those are required to differ between seeds); distinct = distinct digests."));
     out.set("grid_points", json!(g.len()));
     for s in samples {
         out.push("samples", s);
